@@ -136,6 +136,14 @@ func perturbQuote(q []byte, pr *ProbeRec, perturb string, k int) ([]byte, bool) 
 		}
 		add16(q, 4, k)
 		fixV4Csum(q)
+	case "ipidSwap":
+		// the quoted identification with its two bytes exchanged (a stack that quotes header fields in
+		// host byte order): another identification, unless both bytes are equal
+		if !v4 || proto == codec.ProtoICMP || q[4] == q[5] {
+			return q, false
+		}
+		q[4], q[5] = q[5], q[4]
+		fixV4Csum(q)
 	case "ipidHi":
 		if !v4 || proto == codec.ProtoICMP {
 			return q, false
@@ -356,6 +364,11 @@ func (w *World) buildReply(ep *Endpoint, pr *ProbeRec, hp *HopPlan, r *Reply) (b
 			seg.Flags = codec.FlagACK
 			seg.Seq = l4.Ack // what the driver acknowledged = server's next sequence
 			lis := w.lisForEp(ep)
+			if lis != nil && lis.L.GreetingLen > 0 {
+				// the target has sent data of its own since the SYN-ACK (a banner the capture filter of the
+				// handshake phase dropped): its segments carry a sequence number that has moved on
+				seg.Seq += uint32(lis.L.GreetingLen)
+			}
 			isn := l4.Seq - uint32(ip.TTL)
 			if ep.Conn != nil {
 				isn = ep.Conn.isn
